@@ -15,7 +15,19 @@ HARNESSES = [
          nochecks=["--conversion-check"], timeout=120,
          cases=[dict(id="type%d" % t, defines={"TYPE": t}, tier="quick")
                 for t in range(0, 15)]),
-    dict(name="dir_run", file="dir_run.c", loops=["get_conseq_entry_count"],
-         label="proved", unwind=259, timeout=600,
+    dict(name="dir_run", file="dir_run.c", label="proved", timeout=1200,
+         nochecks=["--conversion-check"], weight=20,
+         cases=[dict(id="n257", defines={"DR_N": 257}, unwind=258, tier="quick",
+                     flags=["--max-field-sensitivity-array-size", "300"]),
+                dict(id="blk_n8", defines={"DR_N": 8, "DR_BLK": None}, unwind=10,
+                     tier="quick", label="bounded(list<=8)", weight=2),
+                dict(id="blk_n16", defines={"DR_N": 16, "DR_BLK": None}, unwind=18,
+                     tier="thorough", label="bounded(list<=16)", weight=2)]),
+    dict(name="comp", file="comp.c", label="proved", unwind=12, timeout=300,
+         include_dirs=["lib/sqfs/src/comp"],
+         cases=[dict(id=c, defines={"COMP_" + c: None}, tier="quick")
+                for c in ("gzip", "xz", "lz4", "zstd", "lzma")]),
+    dict(name="ids_index", file="ids_index.c", label="proved", timeout=600,
+         loops=["sqfs_id_table_id_to_index"], loop_rows_reachable=1,
          cases=[dict(id="all", tier="quick")]),
 ]
